@@ -333,6 +333,16 @@ func (prop) Generate(rng *core.Rand, tier string, emit func(string)) {
 	for i := 0; i < nbig; i++ {
 		emit(genBig(bigr))
 	}
+	// histories of loads in one process (a reload provisions the new config while the old one is
+	// alive): what a load makes of its config must not depend on the loads before it
+	nh := 60
+	if tier == "thorough" {
+		nh = 600
+	}
+	hr := rng.Fork()
+	for i := 0; i < nh; i++ {
+		emit(genHist(hr))
+	}
 	// the Caddyfile adapter's part: auto_https option, schemes and ports -> Listen / AutoHTTPS / host matchers
 	ncf := n / 3
 	cfr := rng.Fork()
